@@ -491,3 +491,94 @@ class VariantReach:
 
     def states_at(self, states, bb):
         return [dict(e) for b, e in states if b == bb]
+
+
+class BoolReach:
+    """Reachability under an assignment of truth values to named boolean facts (A14).  `atom_of(kind, bb, obj)` names the
+    fact a statement (`kind` = 'binop', obj = the assignment) or a call (`kind` = 'call', obj = the terminator) computes and
+    returns (name, negated) or None.  Boolean locals are evaluated along each path: constants, copies, `!`, `&`/`|` of
+    known values, and the named facts (value taken from the assignment); a switch on a known local has one successor.
+    Anything else is unknown and forks.  Used to decide a guard written in any boolean form (`a || !b`, `let clean = !a &&
+    b`, early returns) by enumerating the assignments."""
+
+    def __init__(self, body, atom_of):
+        self.body = body
+        self.atom_of = atom_of
+        self.succs = body.succs()
+
+    def _step(self, bb, vals, env):
+        body = self.body
+        vals = dict(vals)
+        blk = body.blocks[bb]
+
+        def val_of(op):
+            if "const" in op:
+                c = op["const"]
+                return bool(c.get("int")) if c.get("ty") == "bool" and c.get("int") is not None else None
+            p = op.get("copy") or op.get("move")
+            if p is None or p["p"]:
+                return None
+            return vals.get(p["l"])
+        for s in blk["s"]:
+            if s["k"] != "assign":
+                continue
+            dst = s["place"]
+            if dst["p"]:
+                continue
+            rv = s["rv"]
+            v = None
+            if rv["k"] == "use":
+                v = val_of(rv["op"])
+            elif rv["k"] == "unop" and rv["op"] == "Not":
+                x = val_of(rv["a"])
+                v = (not x) if x is not None else None
+            elif rv["k"] == "binop":
+                at = self.atom_of("binop", bb, s)
+                if at is not None and at[0] in env:
+                    v = env[at[0]] != at[1]
+                elif rv["op"] in ("BitAnd", "BitOr"):
+                    x, y = val_of(rv["a"]), val_of(rv["b"])
+                    if rv["op"] == "BitAnd":
+                        v = False if (x is False or y is False) else (True if x and y else None)
+                    else:
+                        v = True if (x is True or y is True) else (False if x is False and y is False else None)
+                elif rv["op"] in ("Eq", "Ne"):
+                    x, y = val_of(rv["a"]), val_of(rv["b"])
+                    if x is not None and y is not None:
+                        v = (x == y) if rv["op"] == "Eq" else (x != y)
+            if v is None:
+                vals.pop(dst["l"], None)
+            else:
+                vals[dst["l"]] = v
+        t = blk["t"]
+        nxt = self.succs[bb]
+        if t["k"] == "call" and t.get("dest") is not None and not t["dest"]["p"]:
+            at = self.atom_of("call", bb, t)
+            if at is not None and at[0] in env:
+                vals[t["dest"]["l"]] = env[at[0]] != at[1]
+            else:
+                vals.pop(t["dest"]["l"], None)
+        elif t["k"] == "switch":
+            p = t["discr"].get("copy") or t["discr"].get("move")
+            if p is not None and not p["p"] and vals.get(p["l"]) is not None:
+                v = 1 if vals[p["l"]] else 0
+                hit = [b for val, b in t["targets"] if val == v]
+                nxt = [hit[0]] if hit else [t["otherwise"]]
+        return [(n, tuple(sorted(vals.items()))) for n in nxt]
+
+    def blocks(self, start_bb, env, avoid=(), avoid_edges=(), init=None):
+        avoid = set(avoid)
+        avoid_edges = set(avoid_edges)
+        st0 = (start_bb, tuple(sorted((init or {}).items())))
+        seen = {st0}
+        work = [st0]
+        while work:
+            bb, vals = work.pop()
+            for n, nv in self._step(bb, vals, env):
+                if n in avoid or (bb, n) in avoid_edges:
+                    continue
+                s = (n, nv)
+                if s not in seen:
+                    seen.add(s)
+                    work.append(s)
+        return {bb for bb, _ in seen}
